@@ -231,7 +231,16 @@ class SymFile:
             if isinstance(k, S.SymR) or k > 0:
                 self.read(k)
             elif k < 0:
-                raise StreamViolation("backward relative seek")
+                # backwards over whole concrete-width fields
+                back = 0
+                while back < -k and self.i > 0:
+                    self.i -= 1
+                    w = self.fields[self.i].width
+                    if isinstance(w, S.SymR):
+                        raise StreamViolation("backward relative seek over a field of symbolic width")
+                    back += w
+                if back != -k:
+                    raise StreamViolation("backward relative seek(%r) does not end on a field boundary" % k)
             return
         if whence == 0 and not isinstance(k, S.SymR):
             self.mid = False
@@ -263,8 +272,8 @@ class SymFile:
         b = self.read(dt.itemsize * count if not isinstance(count, S.SymR) else count * dt.itemsize)
         out = []
         for f in b.fields:
-            want = "d" if dt.itemsize == 8 else "f"
-            if f.kind != want:
+            want = "i" if dt.kind in "iu" else ("d" if dt.itemsize == 8 else "f")
+            if f.kind != want or (want == "i" and f.width != dt.itemsize):
                 raise StreamViolation("fromfile(%s): field %r" % (dt, f))
             end = "<" if dt.byteorder in "<=|" else ">"
             if f.endian != end:
